@@ -179,6 +179,15 @@ def library_messages(ctx):
         big = idp.create_authn_response(many, in_response_to="req-1", destination=env.SP_ACS_POST, sp_entity_id=env.SP_ID,
                                         userid="u1", authn=authn)
         out.append(("response_big_%dB" % len(str(big)), str(big)))
+        # sizes around the powers of two a codec may treat specially (16-bit / 20-bit / 21-bit lengths): one value is padded until the
+        # UTF-8 length of the whole message is exactly the target
+        small = out[[n for n, _ in out].index("response")][1]
+        for target in (65535, 65536, 65537, 1048575, 1048576, 1048577, 1300000, 2097153) + (() if ctx.quick else (4194305, 16777217)):
+            m0 = small if target < 200000 else str(big)
+            mark = "a@b" if target < 200000 else "v00000 "
+            pad = target - len(m0.encode("utf-8"))
+            if pad > 0 and mark in m0:
+                out.append(("response_size_%dB" % target, m0.replace(mark, mark + "Z" * pad, 1)))
     return out, sp, idp
 
 
